@@ -23,6 +23,10 @@ import tempfile
 from harness.fw import REPO, VERIF, Check, Driver, ToolFailure
 from harness.props.c38 import cps, enc, from_cps, has_surrogate
 
+PINS = [("androguard/cli/main.py", "export_apps_to_format"), ("androguard/cli/main.py", "valid_class_name"),
+        ("androguard/cli/main.py", "check_inside_directory"), ("androguard/cli/main.py", "create_directory"),
+        ("androguard/misc.py", "clean_file_name"), ("androguard/core/dex/__init__.py", "EncodedMethod.get_short_string")]
+
 DEPTH = 8            # out = ROOT/n1/…/n8/out ; generated names climb at most 7 levels
 RETURN_VOID = b"\x0e\x00"
 
@@ -246,6 +250,12 @@ def judge(ck, case, res):
 
 def run(ck: Check):
     rng = ck.rng
+    ck.pins_changed(PINS)
+
+    def size(q, t):
+        """quick size unless thorough tier or escalated (a changed modelled function gets the thorough sizes);
+        once a failing input is on record the verdict is settled and the quick size is enough"""
+        return q if ck.quick and (not ck.escalated or ck.failures) else t
     ok_gen = ck.run_gen("paths")
     ck.prove(exes=["drv_C37"])
     try:
@@ -270,7 +280,7 @@ def run(ck: Check):
             ck.search_cases += 1
             judge(ck, c, res)
         # ---- T: valid_class_name
-        n_vcn = 4000 if ck.quick else 100000
+        n_vcn = size(4000, 100000)
         reqs, real = [], []
         for _ in range(n_vcn):
             cn = rand_class(rng, "/s")
@@ -286,7 +296,7 @@ def run(ck: Check):
         if drv:
             ck.compare("vcn", reqs, real, drv.ask(reqs))
         # ---- T + S: export
-        n_exp = 160 if ck.quick else 6000
+        n_exp = size(160, 6000)
         reqs, real, model = [], [], []
         dist = {"dex_files": 0, "classes": 0, "methods": 0, "export_completed": 0, "export_raised": 0,
                 "with_dotdot": 0, "absolute_looking": 0, "long_names": 0, "nul_or_newline": 0, "paths_created": 0,
